@@ -5,7 +5,9 @@
              the statement template (format literals as they appear in the AST of
              orcprogram-c.c on this run, with literal arguments substituted) equals
              the statements under the `/* k: <op> */` comment of emulate_<op>
-Value equivalence of compiled C and emulation is NOT decided.
+  D3 R-WIDEN 64-bit parameters: the generated C (templates instantiated into a scratch unit) and the emulator both
+             combine the two executor slots as zero-extended low | high << 32
+Value equivalence of compiled C and emulation is otherwise NOT decided.
 """
 import re
 
@@ -135,3 +137,12 @@ def run(ctx):
     rep.extra["rules_with_branches_not_compared"] = skipped
     if n2 < 140:
         raise AnalysisBroken("only %d straight-line rules compared" % n2)
+
+    # ---- D3: 64-bit parameters are marshalled without sign extension ------------------------
+    # The executor-based C (what a generated _backup_ function is made of) reassembles a 64-bit parameter from two int
+    # slots; emulation (emulate_loadpq / orc_executor_emulate) does the same.  Both are judged by the same type-level rule:
+    # the low half must be zero-extended before it is OR-ed with the shifted high half.
+    from ctemplates import check_param_halves
+    nt, nr = check_param_halves(ctx, db, rep, "D3-PARAM-HALVES")
+    rep.extra["param_half_templates"] = nt
+
